@@ -21,10 +21,11 @@ class C13Bridge(BridgeBase):
 
 class C13Queue(CQBase):
     pid = "C13"
-    quick_cap = 8000
+    quick_cap = 9000
     prefixes = ("C13.",)
     mc = [("ConsensusQueue_mc", "ConsensusQueue_ev", ("quick", "thorough"))]
     gens = [Gen("ConsensusQueueGen", "ConsensusQueueGen_prune_cover", "bfs", tiers=("quick",), timeout=900, cap=6000),
+            Gen("ConsensusQueueGen", "ConsensusQueueGen_order_cover", "bfs", tiers=("quick", "thorough"), timeout=600, cap=4000),
             Gen("ConsensusQueueGen", "ConsensusQueueGen_sim", "simulate", num=100, depth=18, tiers=("quick",), cap=500),
             Gen("ConsensusQueueGen", "ConsensusQueueGen_prune_cover", "bfs", tiers=("thorough",), timeout=900, cap=20000),
             Gen("ConsensusQueueGen", "ConsensusQueueGen_sim", "simulate", num=1000, depth=18, tiers=("thorough",), cap=6000)]
